@@ -73,7 +73,8 @@ pub enum Ev
     StepBegin(usize),
     StepEnd(usize),
     /// A system body started: instance, `Local` counter, captured counter, reader sample.
-    Body { inst: u8, n: u32, cap: u32, s: Sample },
+    /// `chg`: the system's change-detection baseline reports a never-touched resource as changed (true only on a first run).
+    Body { inst: u8, n: u32, cap: u32, s: Sample, chg: bool },
     BodyEnd { inst: u8, n: u32, err: bool },
     /// Entity world reactor body: local data of the source entity as seen (None = not available).
     EwrLocal { inst: u8, src: u64, val: Option<u32>, src_alive: bool },
@@ -98,7 +99,7 @@ pub enum Ev
     /// A `single*` accessor ran: the entity it reported and the value it saw before writing.
     Single { uid: u32, e: u64, old: Option<u8> },
     /// syscall family: callee body, and value returned to the caller.
-    SysBody { key: u8, n: u32, input: u32 },
+    SysBody { key: u8, n: u32, input: u32, chg: bool },
     SysBodyEnd { key: u8, n: u32 },
     SysRet { uid: u32, out: Option<u32> },
     FrameBegin { sys: u8, frame: u32 },
